@@ -57,6 +57,7 @@ def run(chk):
     chk.rule("R3", "recursive leaf visitors descend into `right` of every binary verb")
     chk.rule("R4", "after a union: visible = left sequence in all siblings; cache cols = visible left columns only")
     chk.rule("R5", "_union_impl refuses different back ends, grouped inputs, different visible names, incompatible types")
+    chk.rule("R7", "the operands of the SQL compound select carry no ORDER BY (the union result is unordered; SQLite rejects ORDER BY / parentheses in an operand)")
     chk.rule("R6", "_union_impl checks both inputs for a required subquery before updating the cache")
 
     uc = sym.cls("Union")
@@ -113,6 +114,27 @@ def run(chk):
     src_s = " ".join(norm(st) for st, _ in flat(items_s))
     chk.ob("R1", sql, scfg.func, "sql Union: result columns carry the left names", "for uid in left_select" in src_s and "query = Query(select=left_select)" in src_s,
            "the SQL union result is not labelled / selected by the left table's columns")  # fmt: skip
+
+    # ---- R7 operands without ORDER BY
+    flat_s = [st for st, _c in flat(items_s)]
+    cq_calls = [(st, c) for st in flat_s for c in calls_in(st) if (dotted(c.func) or "").endswith("compile_query") and len(c.args) >= 2]
+    chk.floor("R7", "compile_query calls in the SQL Union slice", len(cq_calls), 2)
+    for st, c in cq_calls:
+        qarg = norm(c.args[1])
+        idx = flat_s.index(st)
+        cleared = False
+        for prev in flat_s[:idx]:
+            if isinstance(prev, ast.Assign) and any(norm(t) == f"{qarg}.order_by" for t in prev.targets) and isinstance(prev.value, (ast.List, ast.Tuple)) and not prev.value.elts:
+                cleared = True
+            elif isinstance(prev, ast.Expr) and isinstance(prev.value, ast.Call) and norm(prev.value.func) == f"{qarg}.order_by.clear":
+                cleared = True
+            elif isinstance(prev, ast.Assign) and any(norm(t) == qarg for t in prev.targets) and not (isinstance(prev.value, ast.Call) and (dotted(prev.value.func) or "").endswith("Query")):
+                cleared = False  # re-bound to a compiled query that may be ordered again
+            elif isinstance(prev, ast.Assign) and isinstance(prev.targets[0], ast.Tuple) and qarg in [norm(e) for e in prev.targets[0].elts]:
+                cleared = False
+        chk.ob("R7", sql, c, f"sql Union: {qarg}.order_by is emptied before {norm(c)[:50]}", cleared,
+               f"the union operand compiled from `{qarg}` keeps its ORDER BY (arrange before union): `(SELECT .. ORDER BY ..) UNION ..` is a syntax "
+               "error on SQLite, and the order is meaningless for the unordered union result")  # fmt: skip
 
     # ---- R2
     def distinct_tags(mod, stmts_, subject, calls_of_interest):
